@@ -680,14 +680,29 @@ def run_check(prop: Prop, tier: str, seed: int) -> int:
                 if corr_fail:
                     i = corr_fail[0]
 
+                    spec_hits = []
+
                     def corr_still_fails(c, o, r):
+                        # a smaller disagreement may expose what the big one hid: remember every
+                        # shrink candidate on which the implementation itself fails the spec
+                        if not r["spec"] and not (r["corr"] and attributed(prop, c, o, r) in known):
+                            spec_hits.append(c)
                         return not r["corr"]
                     sc = run.shrink(cases[i], corr_still_fails)
-                    path = run.write_replay(
-                        "correspondence-broken", sc, safe_impl(prop, sc),
-                        {"obligation": "corr:%s (model %s no longer describes the implementation)" % (pid, prop.corr_module),
-                         "original_case": cases[i], "count_in_run": len(corr_fail)})
-                    violation(path, "no-failing-input-found")
+                    if spec_hits:
+                        def still_fails2(c, o, r):
+                            return not r["spec"] and not (r["corr"] and attributed(prop, c, o, r) in known)
+                        sc2 = run.shrink(spec_hits[-1], still_fails2)
+                        path = run.write_replay("spec-violation", sc2, safe_impl(prop, sc2),
+                                                {"original_case": cases[i],
+                                                 "found_by": "shrinking a model/implementation disagreement"})
+                        violation(path)
+                    else:
+                        path = run.write_replay(
+                            "correspondence-broken", sc, safe_impl(prop, sc),
+                            {"obligation": "corr:%s (model %s no longer describes the implementation)" % (pid, prop.corr_module),
+                             "original_case": cases[i], "count_in_run": len(corr_fail)})
+                        violation(path, "no-failing-input-found")
                 else:
                     what = broken_thm or "; ".join(forb + bad_assump)
                     path = run.write_replay("proof-broken", None, None,
